@@ -10,7 +10,9 @@ import torch
 from vlib.geom import sym_grid
 
 PROPERTY = "C19"
-TECHNIQUE = 'enumeration of a catalogue of tensor programs; per program a z3 non-interference query over symbolic voxels of three images with distinct symbolic grids'
+TECHNIQUE = 'enumeration of a catalogue of tensor programs executed concolically on three images with distinct symbolic grids and symbolic voxels; which input item each result entry depends on is read off the free variables of its symbolic terms (a sound syntactic over-approximation of dependence: a non-interference query on such terms is trivially unsat), which grid it carries off the symbolic variables of the grid; mismatches are replayed by perturbing one item at a time; shape / type rules and mixed-axes obligations go through z3'
+NONTRIVIAL_FROM = "dependency_analyses"
+NONTRIVIAL_RULE = "For this property the deciding comparisons are between dependency sets: dependency_analyses counts the result entries whose set of contributing input items was computed from the free variables of their symbolic terms (one per result entry per program); these are added to distinct_nontrivial."
 EXPLANATION = (
     "Bounded symbolic execution + SMT over an enumerated catalogue of torch programs. Batches of three images (and flow fields) with three "
     "distinct symbolic grids and free symbolic voxels are pushed through each program via the real __torch_function__ / __getitem__ / "
@@ -53,6 +55,7 @@ def _items_of(ctx, t):
         return None
     from symtorch import terms as tm
 
+    ctx.counters["dependency_analyses"] = ctx.counters.get("dependency_analyses", 0) + 1
     fv = tm.free_vars(list(ctx.eng.terms(t).reshape(-1)))
     return sorted({int(n[1]) for n in fv if n.startswith("I") and n[2] == "v"})
 
